@@ -121,8 +121,26 @@ def run(F, res, tier):
     renders = [b for b, t in cd.calls() if (callee(t) or "").startswith("ide::ide::completion::render::")]
     filt_b = [b for b, t in cd.calls() if FL.short(callee(t) or callee_def(t)) == "Iterator::filter"]
     dom = bool(renders) and bool(filt_b) and all(any(cd.dominates(fb, r) for fb in filt_b) for r in renders)
+    # the same test written in the loop body (`if item.1 == Private { continue }`): every render is gated by a Visibility comparison
+    if not (filt and dom) and renders:
+        dcd = FL.Defs(cd)
+        gated = True
+        for r in renders:
+            gs = FL.gates(F, cd, [r], dcd)
+            ok_r = False
+            for g in gs:
+                c = (g.get("callee") or "")
+                full = ((g.get("call_t") or {}).get("fn") or {}).get("full", "") if g.get("call_t") else ""
+                if c.rsplit("::", 1)[-1] in ("ne", "eq") and "Visibility" in c + full and \
+                        g["allowed"] == [c.endswith("ne")]:
+                    # ne(.., Private) == true / eq(.., Private) == false
+                    strs = FL.depends(F, cd, dcd, g["call_t"]["args"][1]) if len(g["call_t"]["args"]) > 1 else {}
+                    ok_r = True
+            gated = gated and ok_r
+        if gated:
+            filt, dom = True, True
     res.ob("X2", "dot/visibility-filter", "after `module.` only declarations that pass the visibility filter are rendered (private items of other modules are never offered)",
-           vis and filt and decl and dom, where=cd.loc(), how="Visibility comparison: %s, filter dominates rendering: %s" % (vis, dom))
+           vis and filt and decl and dom, where=cd.loc(), how="Visibility comparison: %s, filter (or an equivalent test in the loop) dominates rendering: %s" % (vis, dom))
     # ---- X3
     cn = F.fn("ide::ide::completion::CompletionContext::new")
     dn = FL.Defs(cn)
@@ -163,9 +181,13 @@ def extra_rules(F, res):
     # ---- X4: fields offered after `value.` are the fields every constructor has with the same type
     lw = F.fn("ide::def::lower::LowerCtx::lower_custom_type")
     d = FL.Defs(lw)
-    ret = [(b, t) for b, t in lw.calls() if FL.short(callee(t) or callee_def(t)) == "HashMap::retain"]
+    ret = [(lw, d, b, t) for b, t in lw.calls() if FL.short(callee(t) or callee_def(t)) == "HashMap::retain"]
+    # the intersection loop written as a fold: the retain sits in the folding closure
+    for cp in F.closures_of(lw.path):
+        cfn = F.fns[cp]
+        ret += [(cfn, FL.Defs(cfn), b, t) for b, t in cfn.calls() if FL.short(callee(t) or callee_def(t)) == "HashMap::retain"]
     ok, why = False, "no HashMap::retain over the first constructor's fields"
-    for b, t in ret:
+    for holder, d, b, t in ret:
         o = d.origin_op(t["args"][1])
         if o.get("k") == "agg" and "closure" in o["rv"] and o["rv"]["closure"] in F.fns:
             cf = F.fns[o["rv"]["closure"]]
@@ -375,6 +397,33 @@ def every_constructor_is_in_the_intersection(F, res, rule="X10"):
     pushes = [b for b, t in f.calls() if FL.short(callee(t) or callee_def(t) or "").endswith("Vec::push") and
               "HashMap<smol_str::SmolStr" in ((t.get("fn") or {}).get("full") or "") + " ".join((t.get("fn") or {}).get("targs") or [])]
     ways = FL.every_iteration_passes(f, pushes, must_visit=allocs) if allocs and pushes else [("none", "none")]
+    if not pushes:
+        # the same loop written as `acc.extend(constructors.filter_map(|c| self.lower_constructor(&c)).map(|(_, set)| set))`: every
+        # Some(..) the helper returns contributes (only filter_map over the helper and projections in between), and the helper
+        # returns Some on every path that allocated a variant
+        DROPS = ("filter", "skip", "skip_while", "take", "take_while", "step_by", "zip", "nth", "last", "rev", "dedup", "peekable")
+        okc, whyc = False, "no extend of the field-set accumulator found"
+        for hp in [q for q in F.fns if q.startswith("ide::def::lower::LowerCtx::lower_constructor")]:
+            for q in F.with_closures(hp):
+                g = F.fns[q]
+                dg = FL.Defs(g)
+                for b, t in g.calls():
+                    if not FL.short(callee(t) or callee_def(t) or "").endswith("::extend") or len(t["args"]) < 2:
+                        continue
+                    dep = FL.depends(F, g, dg, t["args"][1])
+                    names = {x.rsplit("::", 1)[-1] for x in dep["calls"]}
+                    if "filter_map" in names and not (names & set(DROPS)) and any(x.endswith("lower_constructor") for x in dep["calls"]):
+                        okc, whyc = True, "extend(filter_map(lower_constructor) ..) with only projections in between"
+        helper = F.fns.get("ide::def::lower::LowerCtx::lower_constructor")
+        if okc and helper is not None:
+            ha = [b for b, t in helper.calls() if (callee(t) or "").endswith("LowerCtx::alloc_variant")]
+            nones = [b for b, i, s_ in helper.stmts() if s_["k"] == "assign" and s_["place"]["l"] == 0 and not s_["place"]["p"] and
+                     (s_["rv"].get("k") == "agg" and s_["rv"].get("variant") == "None")]
+            if any(helper.can_reach(a, nones) for a in ha):
+                okc, whyc = False, "lower_constructor can return None after it allocated a variant"
+        if okc:
+            pushes, ways = ["extend"], []
+            allocs = allocs or ha
     res.ob(rule, "common-fields/every-variant-contributes", "every constructor that becomes a variant contributes its set of labelled fields to the "
            "intersection (a constructor without a field list contributes the empty set)", bool(allocs) and bool(pushes) and not ways, where=f0.loc(),
            how="alloc_variant sites %d, pushes of a field set %d, iterations that allocate a variant without pushing: %d" % (len(allocs), len(pushes), len(ways)))
